@@ -206,6 +206,7 @@ def filter_menu(kmax):
         out.append((k, ('nopal',)))
         out.append((k, ('table', [])))
         out.append((k, ('table', [O.kmer(0, k)])))
+        out.append((k, ('table', [O.kmer(4 ** k - 1, k), O.kmer(4 ** k // 3, k)])))
         out.append((k, ('table', [O.kmer(v, k) for v in range(4 ** k) if v % 3 == 0])))
     return out
 
@@ -226,6 +227,11 @@ def run(ctx):
     for d in range(0, 3):
         for rem in itertools.combinations(range(64), d):
             fam.append((3, set(range(64)) - set(rem), ('bool', 'int')))
+    # very sparse masks at higher orders (a verdict must not depend on how small the accepted fraction is)
+    for v in range(4 ** 5):
+        fam.append((5, {v}, ('bool',)))
+    for v in range(0, 4 ** 6, 7 if ctx.quick else 1):
+        fam.append((6, {v, (v * 4) % 4 ** 6}, ('bool',)))
     ctx.pmap(_w_valid, core.chunks_of(fam, 200))
     ctx.bounds = {'filter_menu': len(menu), 'k_find': [1, 5 if ctx.quick else 6], 'table_filters_k2': 'all 65536',
                   'valid_graph_masks': 'all 65536 order-2 masks x {bool,int}; all order-1; binary embeddings k=3,4; order-3 complete minus <=2'}
